@@ -13,6 +13,12 @@ func (ex *Exec) sliceLen(s RefV) *Term {
 			n = Ite(a.C, t.Len, n)
 		case BoxT:
 			n = Ite(a.C, BVC(2, 64), n) // length of marshalled JSON: opaque positive
+		case BoxSeqT:
+			var any []*Term
+			for _, e := range t.Elems {
+				any = append(any, e.G)
+			}
+			n = Ite(a.C, Ite(Or(any...), BVC(2, 64), BVC(0, 64)), n)
 		case LineT:
 			n = Ite(a.C, Ite(t.Cell.Blank, BVC(0, 64), BVC(2, 64)), n)
 		default:
